@@ -18,6 +18,11 @@ package main
 //      parent's window at (Origin.Col, Origin.Row, Size.Width, Size.Height),
 //      recurses into it, and paints own cells before children; AddChild /
 //      NewSubSurface forward (col,row,surface) unchanged
+//   e  no index into Surface.Buffer is computed in a type that wraps at 16 bits
+//
+// c14x.go holds the semantic judges of the third robustness round (order judge for
+// less functions / comparators / sort.Interface, painted copies of Children,
+// path-sensitive centring offsets, clause e).
 //
 // Single file: driver, helpers, expression views, the B-max interpreter, then
 // one section per clause.
@@ -89,8 +94,8 @@ func runC14(c *Ctx) {
 	c.Clauses = []string{
 		"C14.a every built-in widget's Draw returns a surface built by NewSurface with arguments <= ctx.Max.* (abstract interpretation in the bound domain v <= Max+k, through findContainerSize, whose every return is an obligation), or a child surface drawn with Max' <= Max, or the empty surface; Surface.Size is never modified after construction",
 		"C14.b NewSurface allocates width*height in a type that cannot wrap for uint16*uint16; WriteCell computes row*Width+col in such a type and stores only under col < Width and row < Height (strict); Surface.Buffer is stored into only by WriteCell (and Fill through its own range key) and never aliased or replaced",
-		"C14.c center.Draw: child origin = ((parent.Width-child.Width)/2, (parent.Height-child.Height)/2) passed in (col,row) order, on the parent surface it returns; the child is drawn with Max' <= Max",
-		"C14.d Surface.render: own cells at (i % Width, i / Width) through win.SetCell before any child; Children sorted by ZIndex ascending before the child loop; each child window = win.New(Origin.Col, Origin.Row, Size.Width, Size.Height) and the recursion uses it; AddChild/NewSubSurface forward (col,row,surface) unchanged and append to Children",
+		"C14.c center.Draw: child origin = ((parent.Width-child.Width)/2, (parent.Height-child.Height)/2) passed in (col,row) order, on the parent surface it returns (an origin with several definitions, or computed by a helper with several returns, is judged path by path: every value is that quotient, the constant 0 only under a guard implying child.dim >= parent.dim - 1 of the same axis); the child is drawn with Max' <= Max",
+		"C14.d Surface.render: own cells at (i % Width, i / Width) through win.SetCell before any child; Children (or the fresh copy of them that is painted) sorted by ZIndex ascending before the child loop — sort.Slice/SliceStable, slices.SortFunc/SortStableFunc or sort.Sort/Stable, the less function / comparator / Less method evaluated for key(a) <, ==, > key(b), a wrapping difference a.Z-b.Z is not a comparison; each child window = win.New(Origin.Col, Origin.Row, Size.Width, Size.Height) and the recursion uses it; AddChild/NewSubSurface forward (col,row,surface) unchanged and append to Children",
 	}
 	c.NotDec = []string{
 		"absence of panics in general (deliberate panics on unbounded constraints in Center/Button/Dynamic included)",
@@ -102,6 +107,8 @@ func runC14(c *Ctx) {
 	c.expect("C14.b", 8)
 	c.expect("C14.c", 4)
 	c.expect("C14.d", 12)
+	c.Clauses = append(c.Clauses, "C14.e no index into Surface.Buffer (any function of the vxfw packages) is computed by a non-constant +, * or << in a type that wraps at 16 bits, directly or through the definitions and op-assignments of the locals it is built from")
+	c.expect("C14.e", 2)
 
 	env := &c14Env{c: c, sizeFns: map[*FuncInfo]bool{}, surfFnsDone: map[*FuncInfo]bool{}, seenKey: map[string]bool{}, inlining: map[*FuncInfo]bool{}}
 	if !env.setup() {
@@ -114,6 +121,7 @@ func runC14(c *Ctx) {
 	env.checkWidgets()
 	env.checkCenter()
 	env.checkRender()
+	env.checkBufferIndex()
 }
 
 // ---------------------------------------------------------------- setup
@@ -521,6 +529,9 @@ func (v c14V) strip() c14V {
 	for {
 		v.x = unparen(v.x)
 		in := c14Conv(v.sc.info, v.x)
+		if in == nil {
+			in = c14SliceConv(v.sc.info, v.x) // byZIndex(s.Children) shares the backing array of s.Children
+		}
 		if in == nil {
 			return v
 		}
@@ -3221,7 +3232,7 @@ func (e *c14Env) checkCenter() {
 		{"row", "Height", *a.row, ns.Args[e.nsH]},
 	} {
 		key := fmt.Sprintf("%s/%s offset = (parent.%s - child.%s)/2", fn, d.role, d.field, d.field)
-		st, why := c14CenterOffset(d.arg, sc.v(d.pdim), child, d.field)
+		st, why := c14CenterOffsetPaths(d.arg, sc.v(d.pdim), child, d.field)
 		pos := a.at.top().Pos()
 		switch st {
 		case "ok":
@@ -3355,13 +3366,30 @@ func (e *c14Env) checkRender() {
 	rcall := rec.n.(*ast.CallExpr)
 	rs := rec.sc
 	recLoc, okLoc := locOf(rec)
+	// the slice that is painted: Children itself, or a fresh copy of it (make+copy, append(nil, S...), slices.Clone)
+	painted := chID
+	var cp *c14Copy
 	key, loop, ok := rec.loopKey(chID)
+	if !ok {
+		for _, cand := range e.childrenCopies(sc, chID) {
+			cand := cand
+			if key, loop, ok = rec.loopKey(cand.term); ok {
+				painted, cp = cand.term, &cand
+				break
+			}
+		}
+	}
 	if !ok || !okLoc {
 		c.undecided("C14.d", fn+"/children: loop over Children", rec.top().Pos(), "the recursive call is not inside a loop over every index of s.Children")
 		return
 	}
-	c.ok("C14.d", fn+"/children: loop over Children", loop.Pos(), "every child is visited in slice order")
-	elem := chID + "[" + key + "]"
+	if cp == nil {
+		c.ok("C14.d", fn+"/children: loop over Children", loop.Pos(), "every child is visited in slice order")
+	} else {
+		cpLoc, okCp := g.Locate(cp.madeAt)
+		c.check(okCp && g.MustPrecede(func(n ast.Node) bool { return n == cp.madeAt }, recLoc) && !g.ReachesAvoiding(recLoc, cpLoc, nil), "C14.d", fn+"/children: loop over Children", loop.Pos(), "every child is visited in slice order (through "+cp.obj.Name()+", a fresh copy of Children)", "the painted slice "+cp.obj.Name()+" is not filled from Children on every path before the child loop")
+	}
+	elem := painted + "[" + key + "]"
 	rsel, _ := unparen(rcall.Fun).(*ast.SelectorExpr)
 	c.check(rsel != nil && rs.v(rsel.X).term() == elem+".Surface", "C14.d", fn+"/children: recursion into child.Surface", rec.top().Pos(), "child.Surface.render", "the recursive call does not render the loop's child surface")
 	var nwV c14V
@@ -3398,49 +3426,43 @@ func (e *c14Env) checkRender() {
 
 	// (2) z-order
 	sorts := sc.findCalls(func(f *types.Func, call *ast.CallExpr, in *c14Scope) bool {
-		if f == nil || f.Pkg() == nil || len(call.Args) == 0 {
+		if !c14ReordersArg(f) || len(call.Args) == 0 {
 			return false
 		}
-		p := f.Pkg().Path()
-		if p != "sort" && p != "slices" && !strings.HasSuffix(p, "/slices") {
-			return false
-		}
-		return in.v(call.Args[0]).term() == chID
+		t := e.sortTarget(in, call)
+		return t != "" && (t == painted || t == chID)
 	})
 	if len(sorts) == 0 {
 		c.bad("C14.d", fn+"/children sorted by ZIndex ascending", fi.Decl.Pos(), "Children are not sorted before they are painted: z-order is not respected")
 	}
 	for _, at := range sorts {
 		call := at.n.(*ast.CallExpr)
-		full := fullName(calleeOf(at.sc.info, call))
+		target := e.sortTarget(at.sc, call)
 		sloc, okS := locOf(at)
 		if !okS {
 			c.undecided("C14.d", fn+"/sort precedes the child loop", call.Pos(), "sort call not found in the CFG")
 			continue
 		}
 		k := fn + "/children sorted by ZIndex ascending"
-		var lit *ast.FuncLit
-		lsc := at.sc
-		if len(call.Args) == 2 {
-			// the less function: a literal, or a single-definition local bound to one
-			lv := at.sc.v(call.Args[1]).canon()
-			lit, _ = lv.x.(*ast.FuncLit)
-			lsc = lv.sc
-		}
-		if (full != "sort.Slice" && full != "sort.SliceStable") || lit == nil {
-			c.undecided("C14.d", k, call.Pos(), "sort call %s not understood (only sort.Slice/SliceStable with a literal less function)", full)
-		} else {
-			st, why := e.c14LessAscending(lsc, lit, chID)
-			switch st {
-			case "ok":
-				c.ok("C14.d", k, lit.Pos(), "%s", why)
-			case "bad":
-				c.bad("C14.d", k, lit.Pos(), "%s: children with a higher z-index are not painted on top", why)
-			default:
-				c.undecided("C14.d", k, lit.Pos(), "%s", why)
+		top := at.top()
+		if cp != nil {
+			// the sort must order the slice that is painted: either the copy (after it was filled), or Children before the copy is taken
+			cpLoc, okCp := g.Locate(cp.madeAt)
+			if target == chID {
+				c.check(okCp && g.MustPrecede(func(n ast.Node) bool { return n == top }, cpLoc), "C14.d", fn+"/sort orders the painted slice", call.Pos(), "Children are sorted before the painted copy is taken", "Children are sorted but the children are painted from "+cp.obj.Name()+", a copy that is not taken after the sort on every path: the painted order is the insertion order")
+			} else {
+				c.check(okCp && g.MustPrecede(func(n ast.Node) bool { return n == cp.madeAt }, sloc) && !g.ReachesAvoiding(sloc, cpLoc, nil), "C14.d", fn+"/sort orders the painted slice", call.Pos(), "the painted copy is sorted after it was filled", "the painted copy "+cp.obj.Name()+" is (re)filled from Children after it was sorted")
 			}
 		}
-		top := at.top()
+		st, why, pos := e.judgeSort(at, target)
+		switch st {
+		case "ok":
+			c.ok("C14.d", k, pos, "%s", why)
+		case "bad":
+			c.bad("C14.d", k, pos, "%s: children with a higher z-index are not painted on top", why)
+		default:
+			c.undecided("C14.d", k, pos, "%s", why)
+		}
 		pre := g.MustPrecede(func(n ast.Node) bool { return n == top }, recLoc)
 		c.check(pre, "C14.d", fn+"/sort precedes the child loop", call.Pos(), "every path to the child render passes the sort", "a child can be rendered before Children are sorted")
 		again := g.ReachesAvoiding(recLoc, sloc, nil)
@@ -3453,64 +3475,4 @@ func (e *c14Env) checkRender() {
 			c.check(!g.ReachesAvoiding(recLoc, l, nil), "C14.d", fn+"/own cells painted before any child", at.top().Pos(), "no SetCell of the parent is reachable after a child render", "the parent's own cells can be painted after (over) a child")
 		}
 	}
-}
-
-// c14LessAscending: the literal is func(i, j) bool { return X[i].ZIndex < X[j].ZIndex }
-// (or the mirrored >, or !(... >= ...)), modulo locals.
-func (e *c14Env) c14LessAscending(sc *c14Scope, lit *ast.FuncLit, sliceID string) (string, string) {
-	info := sc.info
-	var ps []types.Object
-	for _, f := range lit.Type.Params.List {
-		for _, n := range f.Names {
-			ps = append(ps, info.Defs[n])
-		}
-	}
-	var ret *ast.ReturnStmt
-	nret := 0
-	ast.Inspect(lit.Body, func(n ast.Node) bool {
-		if r, ok := n.(*ast.ReturnStmt); ok {
-			ret = r
-			nret++
-		}
-		return true
-	})
-	if len(ps) != 2 || nret != 1 || len(ret.Results) != 1 || lit.Body.List[len(lit.Body.List)-1] != ast.Stmt(ret) {
-		return "undecided", "less function is not a single return over two indices"
-	}
-	ls := &c14Scope{e: sc.e, pkg: sc.pkg, info: info, fd: sc.fd, body: lit.Body, env: sc.env, site: sc.site, depth: sc.depth, outer: sc}
-	x := unparen(ret.Results[0])
-	neg := false
-	for {
-		u, ok := x.(*ast.UnaryExpr)
-		if !ok || u.Op != token.NOT {
-			break
-		}
-		x, neg = unparen(u.X), !neg
-	}
-	op, bx, by, _, ok := ls.v(x).bin()
-	if !ok {
-		return "undecided", "less function does not return a comparison"
-	}
-	if neg {
-		op = negOp(op)
-	}
-	zOf := func(v c14V) int {
-		for i, p := range ps {
-			if v.term() == fmt.Sprintf("%s[%p].ZIndex", sliceID, p) {
-				return i
-			}
-		}
-		return -1
-	}
-	l, r := zOf(bx), zOf(by)
-	if l < 0 || r < 0 {
-		return "bad", "the comparison " + types.ExprString(x) + " is not between the ZIndex of two Children elements"
-	}
-	switch {
-	case op == token.LSS && l == 0 && r == 1, op == token.GTR && l == 1 && r == 0:
-		return "ok", "less(i,j) = Children[i].ZIndex < Children[j].ZIndex"
-	case op == token.LEQ || op == token.GEQ:
-		return "bad", "less is not a strict order (" + types.ExprString(x) + ")"
-	}
-	return "bad", "less(i,j) = " + types.ExprString(x) + " sorts descending or compares an element with itself"
 }
